@@ -307,3 +307,20 @@ Example C16_ex_init :
   fst (init_name s' (ex_init 1 700)) = Fail /\
   fst (init_name ex_state {| i_basic_ok := true; i_fresh := true; i_name := Some 1%N; i_sender := 2%N; i_data := 3%N; i_height := 700 |}) = Fail.
 Proof. vm_compute. split; [reflexivity|]. split; [eexists; repeat split; reflexivity|]. split; reflexivity. Qed.
+
+(* ---------------------------------------------------------------------------------------------
+   Tie to the code by translation + proof: the functions below are GENERATED on every run from /repo's
+   current Go source (translator/gen_gofuncs.go -> Gen/GoRns.v); the theorems say that the hand-written model the
+   property theorems above are about computes what the generated function computes, for all arguments. *)
+From Coq Require Import String.
+From JK Require Import Base.GoSem Gen.GoRns Proofs.GoTieRns.
+
+(* keeper.GetCostOfName is the model's cost function and yields the property's price list for every name of
+   one or more characters (the TLD's base cost, a lookup in types.TLDCost, is the model's two-entry table) *)
+Theorem C16_code_tie_GetCostOfName :
+  forall len t,
+    gen_GetCostOfName (tld_cost t) len
+    = GVal (match cost_of_name len t with Some c => (c, true) | None => (0, false) end) /\
+    (1 <= len -> gen_GetCostOfName (tld_cost t) len = GVal (listed_price len t, true)).
+Proof. intros len t. exact (conj (gen_GetCostOfName_model len t) (gen_GetCostOfName_price_list len t)). Qed.
+Print Assumptions C16_code_tie_GetCostOfName.
